@@ -25,11 +25,14 @@ if go1.26.8 test -vet=off -count=1 -run TestSeeded_ . >>"$RES" 2>&1; then echo "
 rm -f zz_seeded_demo_test.go
 [ "$DEMO" = ok ] || exit 3
 git apply "$D/patch.diff"
-cd /verif
+# run the checks from a snapshot of /verif so that concurrent edits there do not disturb the build
+SNAP=/tmp/mv-verif-$NAME-$$
+mkdir -p "$SNAP" && cp -r /verif/check /verif/sim /verif/known_findings.json /verif/findings "$SNAP"/ 2>/dev/null
+cd "$SNAP"
 for chk in "$@"; do
   OUT=$(VERIF_REPO="$W" VERIF_EVIDENCE_DIR=/tmp/mv-ev-$$ ./check $chk 2>&1)
   rc=$?
   echo "check $chk: exit $rc $(echo "$OUT" | grep -E '^violation' | head -2 | tr '\n' ' ')" | tee -a "$RES"
   echo "$OUT" | grep -E "^done" >> "$RES"
 done
-rm -rf /tmp/mv-ev-$$
+rm -rf /tmp/mv-ev-$$ "$SNAP"
